@@ -188,14 +188,17 @@ def goodbye(ctx: Any) -> List[Ob]:
         raise AnalysisError('anchor vanished: is_running()/get_running_loop() tests in Zeroconf.close')
     # AsyncZeroconf.async_close
     g = prog.func('zeroconf.asyncio.AsyncZeroconf.async_close')
-    names = {'async_remove_all_service_listeners': 'BROWSERS', 'async_unregister_all_services': 'UNREG', '_async_close': 'CLOSE'}
+    names = {'async_remove_all_service_listeners': 'BROWSERS', 'async_unregister_all_services': 'UNREG', '_async_close': 'CLOSE', 'async_wait_for_start': 'START'}
 
     def eff2(node: Any, evl: Any) -> List[Any]:
         return [names[call_name(c)] for c in node.calls() if call_name(c) in names]
 
-    oc3, _ = traces(ctx, g, {}, eff2)
+    oc3, _ = traces(ctx, g, {'.done': False}, eff2)
     tr3 = {strip_ret(t) for t in oc3}
-    obs.append(ob(R, g, 'async_close()', 'every path: browsers removed, goodbyes sent, then the instance is closed', tr3 == {('BROWSERS', 'UNREG', 'CLOSE')}, f'traces {sorted(tr3)}'))
+    obs.append(ob(R, g, 'async_close() on an instance that is not closed yet', 'every path: start-up is awaited (so that the sockets being created are the ones closed), browsers removed, goodbyes sent, then the instance is closed', tr3 == {('START', 'BROWSERS', 'UNREG', 'CLOSE')}, f'traces {sorted(tr3)}'))
+    oc3b, _ = traces(ctx, g, {'.done': True}, eff2)
+    tr3b = {tuple(x for x in strip_ret(t) if x != 'START') for t in oc3b}
+    obs.append(ob(R, g, 'async_close() on a closed instance', 'browsers removed, goodbyes (none left), close (a no-op)', tr3b == {('BROWSERS', 'UNREG', 'CLOSE')}, f'traces {sorted(tr3b)}'))
     # _close removes browsers
     cf = prog.func(ZC + '._close')
     atoms = {k: False for k in done_atoms(ctx, cf)}
@@ -407,6 +410,15 @@ def listener(ctx: Any) -> List[Ob]:
     return obs
 
 
+@rule('C17.DEFERRED', 'N', expect_min=2)
+def deferred17(ctx: Any) -> List[Ob]:
+    """No timer left behind raises: the truncated-query timer only ever finds packets to answer
+    (deferred packets are never dropped without cancelling the timer)."""
+    from .c12 import deferred_timer_discipline
+
+    return deferred_timer_discipline(ctx, 'C17.DEFERRED')
+
+
 EXPLANATION = (
     'C17.GATE (decided): every transport/socket send call site is found through the type oracle; each call chain to it must '
     'pass a function in which, with the instance flag `done` set, no CFG path reaches the call (finite-domain path evaluation); '
@@ -416,4 +428,4 @@ EXPLANATION = (
     'sites is classified (cancelled on a shutdown path / done-gated / reaches no user callback). C17.LISTENER (decided): listener '
     'and timer-handle pairing on all exits. Not decided: behaviour over hours of virtual time and in-flight states [X].'
 )
-RULES = [gate, goodbye, timers, listener]
+RULES = [gate, goodbye, timers, listener, deferred17]
